@@ -33,6 +33,11 @@ type binding struct {
 type Environment struct {
 	vars   map[string]binding
 	parent *Environment
+
+	// depth counts the nested EvaluateExpression calls of the evaluation
+	// (request, command, task, async block) this environment belongs to.
+	// Child scopes share their parent's counter; updated atomically.
+	depth *int64
 }
 
 // NewEnvironment creates a new environment
@@ -40,6 +45,7 @@ func NewEnvironment() *Environment {
 	return &Environment{
 		vars:   make(map[string]binding),
 		parent: nil,
+		depth:  new(int64),
 	}
 }
 
@@ -48,7 +54,29 @@ func NewChildEnvironment(parent *Environment) *Environment {
 	return &Environment{
 		vars:   make(map[string]binding),
 		parent: parent,
+		depth:  parent.depth,
 	}
+}
+
+// newEvaluationScope creates a child of the module scope that starts an
+// evaluation of its own: a request (or command, task, ...) gets its own
+// recursion-depth budget instead of sharing one with every other evaluation
+// running on the interpreter.
+func newEvaluationScope(parent *Environment) *Environment {
+	env := NewChildEnvironment(parent)
+	env.depth = new(int64)
+	return env
+}
+
+// newCallScope creates the scope of a function call: lexically a child of
+// the module scope, but part of the caller's evaluation, so recursion is
+// still bounded by the caller's depth budget.
+func newCallScope(module *Environment, caller *Environment) *Environment {
+	env := NewChildEnvironment(module)
+	if caller != nil && caller.depth != nil {
+		env.depth = caller.depth
+	}
+	return env
 }
 
 // Define adds a new variable to the current environment as a user-declared
